@@ -135,6 +135,7 @@ Proof.
   { unfold tucker in Hrun. set (ranks := validate_tucker_rank (ndim X) rank) in *.
     destruct (Nat.eqb (length ranks) (ndim X)) eqn:El; [|discriminate].
     cbn [negb] in Hrun. apply Nat.eqb_eq in El.
+    destruct (ndim X <=? 1); [discriminate|].
     destruct (hosvd_factors Rops svd X ranks 0 0) as [fs0|] eqn:E0; [|discriminate]. cbn [rbind hooi_iter] in Hrun.
     destruct (multi_mode_dot Rops X fs0 0 None true) as [core1|]; [|discriminate]. cbn [rbind] in Hrun.
     injection Hrun as <- <-.
